@@ -89,7 +89,8 @@ class ExtraKeyDataset(TensorDictDataset):
         self.key_name = key_name
 
     def __getitem__(self, idx):
-        data = self.data[idx]
+        # shallow copy: the per-item dicts are shared with the wrapped dataset and must not be modified
+        data = self.data[idx].copy()
         data[self.key_name] = self.extra[idx]
         return data
 
